@@ -103,7 +103,8 @@ def canonOuts (outs : List Out) : List String :=
 def initNode (cfg : Cfg) (o : Obs) : Node :=
   { cfg, recs := o.recs.map (fun r => { name := r.name, inc := r.inc, st := r.st, addr := r.addr, port := r.port, md := r.md,
                                         vsn := r.vsn, changed := if r.old then none else some 0 }),
-    timers := [], selfInc := o.selfInc, hasLeft := o.hasLeft, score := o.score, numNodes := o.numNodes }
+    timers := o.timers.map (fun t => { node := t.node, k := t.k, n := t.n, confirmers := t.conf, changedAt := 0 }),
+    selfInc := o.selfInc, hasLeft := o.hasLeft, score := o.score, numNodes := o.numNodes }
 
 structure ParsedOp where
   op : Op
